@@ -31,10 +31,28 @@ func shortFuncName(fn *ssa.Function) string {
 	return fn.Name()
 }
 
-func (x *Exec) callOrdinal(fr *frame, name string) int {
+// callOrdinal numbers the call sites of one callee within a frame in the order in which they are
+// first reached; a site that is executed again (loop probing runs, the cut loop body) keeps its number.
+func (x *Exec) callOrdinal(fr *frame, name string, pos token.Pos) int {
 	key := fr.prefix + "call:" + name
-	x.siteSeq[key]++
-	return x.siteSeq[key] - 1
+	if x.sitePos == nil {
+		x.sitePos = map[string]map[token.Pos]int{}
+	}
+	m := x.sitePos[key]
+	if m == nil {
+		m = map[token.Pos]int{}
+		x.sitePos[key] = m
+	}
+	if n, ok := m[pos]; ok && pos.IsValid() {
+		return n
+	}
+	n := len(m)
+	if !pos.IsValid() {
+		x.siteSeq[key]++
+		return 1000 + x.siteSeq[key]
+	}
+	m[pos] = n
+	return n
 }
 
 func (x *Exec) call(fr *frame, st *State, c *ssa.CallCommon, pos token.Pos, instr ssa.Instruction) (Val, error) {
@@ -158,7 +176,7 @@ func (x *Exec) callStatic(fr *frame, st *State, fn *ssa.Function, args []Val, bi
 		fn.Pkg.Build()
 	}
 	if fn.Blocks != nil && !noInline && fr.depth < maxDepth && x.eng.inlinable(fn) {
-		ord := x.callOrdinal(fr, short)
+		ord := x.callOrdinal(fr, short, pos)
 		prefix := fmt.Sprintf("%sinl:%s#%d/", fr.prefix, short, ord)
 		ns, res, err := x.execFunc(fn, args, bindings, st, prefix, fr.depth+1)
 		if err != nil {
@@ -349,7 +367,7 @@ func (x *Exec) applyContract(fr *frame, st *State, fc *FuncContract, sig *types.
 	if fc.Recv != "" {
 		short = fc.Recv + "." + fc.Name
 	}
-	ord := x.callOrdinal(fr, short)
+	ord := x.callOrdinal(fr, short, pos)
 	site := fmt.Sprintf("%scall %s#%d", fr.prefix, short, ord)
 	p := x.pos(pos)
 	vars := map[string]Val{}
